@@ -35,7 +35,8 @@ ASSUMPTIONS = [
     'a watcher time-out (5 s watchdog) is a violation only if a fresh snapshot then shows the awaited change with the event still unset',
 ]
 REQUIRED_COUNTERS = ['schedules_executed', 'watcher_verdicts', 'whole_runs',
-                     'quiescent_points_passed', 'watchers_completed']
+                     'quiescent_points_passed', 'watchers_completed',
+                     'killed_notifier_runs']
 EXHAUSTIVE = {'quick': True, 'thorough': True}
 PLAN = {
     'quick': {'workers': 16, 'budget_s': 60, 'sampled_per_worker': 6,
@@ -67,12 +68,19 @@ def setup():
 def teardown():
   from vf import gate
   gate.uninstall()
+  if _S.get('engine'):
+    _S['engine'].uninstall()
 
 
 def enumerated(tier):
   for ci, cfg in enumerate(CONFIGS[tier]):
     for part in range(PARTS):
       yield {'k': 'gate', 'cfg': list(cfg), 'part': part}
+  # the notifying thread is killed (as a timed-out or aborted phase thread is)
+  # at a line of notify_update; the next notification follows
+  for w in (1, 2, 3):
+    for idx in range(24):
+      yield {'k': 'killed', 'watchers': w, 'idx': idx}
   for w in (1, 2, 3):
     yield {'k': 'run', 'scenario': 'quiet', 'watchers': w, 'seed': None}
   yield {'k': 'run', 'scenario': 'full', 'watchers': 1, 'seed': None}
@@ -526,7 +534,118 @@ def run_whole(case):
           'counters': c}
 
 
+_KPOINTS = {}
+
+
+def run_killed(case):
+  """W watchers hold (snapshot, event) pairs.  Updater UA (a KillableThread, as
+  phase threads are) changes the state and notifies; it is held at a line of
+  notify_update, killed there, and released.  A second update + notification
+  follows.  Every watcher whose snapshot differs from the final state must
+  then hold a set event."""
+  from openhtf.util import threads as kthreads
+  from vf import pause
+  U = _S['U']
+  if not _S.get('engine'):
+    eng = pause.Engine([U.__file__], lambda th: 'UA' if th.name == 'UA' else None)
+    eng.install()
+    eng.enabled = False
+    _S['engine'] = eng
+  eng = _S['engine']
+  nw = case['watchers']
+
+  class Obj(U.SubscribableStateMixin):
+
+    def __init__(self):
+      super().__init__()
+      self.v = 0
+
+    def _asdict(self):
+      return {'v': self.v}
+
+  out = {}
+
+  def scenario(target):
+    o = Obj()
+    pairs = [o.asdict_with_event() for _ in range(nw)]
+
+    class Updater(kthreads.KillableThread):
+
+      def _thread_proc(self):
+        o.v += 1
+        o.notify_update()
+        out['ua_completed'] = True
+
+      def _thread_exception(self, *args):
+        return True    # a killed phase thread ends quietly, too
+
+    ua = Updater(name='UA')
+    eng.arm(target)
+    eng.enabled = True
+    try:
+      ua.start()
+      if target is not None:
+        r = eng.run_action_at_pause(ua.kill, wait_s=4, hold_s=1.0)
+        out['reached'] = r['reached']
+      ua.join(10)
+    finally:
+      eng.enabled = False
+      eng.release()
+    out['seen'] = dict(eng.seen)
+    out['ua_alive'] = ua.is_alive()
+    # the next update (phase outcome, COMPLETED, a trailing log line, ...)
+    o.v += 1
+    o.notify_update()
+    final = o._asdict()
+    out['lost'] = [i for i, (snap, ev) in enumerate(pairs)
+                   if snap != final and not ev.is_set()]
+    out['judged'] = len(pairs)
+    # a watcher that registers now is woken by the notification after that
+    snap, ev = o.asdict_with_event()
+    o.v += 1
+    o.notify_update()
+    if not ev.is_set():
+      out['lost'].append('registered-after-the-kill')
+
+  if nw not in _KPOINTS:
+    scenario(None)
+    import linecache
+    # The second line event of a `with` line is its exit sequence (the call of
+    # __exit__).  CPython checks for a pending asynchronous exception after
+    # calls and at backward jumps, never between the end of the body and that
+    # call, so a kill cannot land there without this instrumentation; stopping
+    # the notifier there would manufacture a thread that dies holding the lock.
+    _KPOINTS[nw] = [
+        (k, h) for k, n in sorted(out['seen'].items())
+        if 'notify_update' in k[1] for h in range(1, n + 1)
+        if not (h > 1 and linecache.getline(U.__file__, k[2]).strip().startswith('with '))]
+  pts = _KPOINTS[nw]
+  c = {'killed_notifier_runs': 0, 'watcher_verdicts': 0}
+  if case['idx'] >= len(pts):
+    return {'sig': None, 'violations': [], 'counters': c, 'evaluations': 0,
+            'sample': False}
+  target = pts[case['idx']]
+  out.clear()
+  scenario(target)
+  viol = []
+  if out.get('reached'):
+    c['killed_notifier_runs'] = 1
+    c['notifier_died_inside_notify_update'] = 0 if out.get('ua_completed') else 1
+  c['watcher_verdicts'] = out.get('judged', 0)
+  if out.get('lost'):
+    viol.append({'mechanism': 'lost-update-after-notifier-was-killed',
+                 'detail': {'watchers': nw, 'unwoken': out['lost'],
+                            'notifier_held_at': [list(target[0]), target[1]],
+                            'notifier_completed': bool(out.get('ua_completed'))}})
+  if out.get('ua_alive'):
+    viol.append({'mechanism': 'notifier-thread-never-ended', 'detail': {}})
+  return {'sig': ['killed', nw, list(target[0]), target[1]], 'violations': viol,
+          'counters': c}
+
+
 def run_case(case):
+  if case['k'] == 'killed':
+    return run_killed(case)
   if case['k'] == 'gate':
     return run_gate(case)
   return run_whole(case)
